@@ -139,7 +139,14 @@ def run_k3(ctx, comp, scs, monitors, hashseeds=(0,)):
             obs = sx.loads(mo)
         except Exception:
             return False
-        return any((o[0] != [0, 1]) for o in obs if isinstance(o, list) and o and isinstance(o[0], list) and len(o[0]) == 2)
+        for o in obs:
+            if not (isinstance(o, list) and o):
+                continue
+            if isinstance(o[0], list) and len(o[0]) == 2 and isinstance(o[0][0], int) and o[0] != [0, 1]:
+                return True      # node-level call with a non-zero amount
+            if isinstance(o[0], int) and len(o) >= 3 and isinstance(o[1], list) and o[1] != [0, 1]:
+                return True      # model-level call with a non-zero amount
+        return False
     m, impl, lines = ctx.correspond(comp, scs, hashseeds=hashseeds, per_proc=120, nontrivial=nontrivial)
     for hs in hashseeds:
         for sc, line, o in zip(scs, lines, impl[hs]):
